@@ -46,6 +46,9 @@ CHECKS = {
  "C15": dict(cat="translation_validation",
    text="Part 1 (genuine stack): for every conditional over the closed set of formulas of depth<=2 over {a,b} (thorough {a,b,c}) and Top/Bottom the real belief_base_to_cnf/query_to_cnf output is validated by two solver queries per CNF (no non-model admitted; every model extends over all non-atom variables) - complete enumeration of the formula set, solver-quantified assignments. Part 2: the real minimal_correction_subsets/get_violated_conditional/exclude_violated/remove_supersets on the RC2 stand-in against 'exactly the minimal falsification sets, each once, none iff hard unsat' for every optimal-model choice, k<=3 soft groups, incl. multi-clause groups and ignore lists.",
    ref="3 C15", tech="translation validation of the real tactic output with z3 (incl. exists/forall over auxiliaries) + symbolic execution of the real enumeration loop on a nondeterministic MaxSAT stand-in"),
+ "C14": dict(cat="model_checking",
+   text="The clock and the solver's give-up are the symbolic part: perf_counter/perf_counter_ns are replaced by a schedule-driven clock (time stands still except at <=1, thorough 2, jump events whose position among ALL clock reads and size are free decisions) and any z3.Optimize.check() under a timeout may answer 'unknown' (model() then raises or returns a non-optimal model). The real Deadline, budget arithmetic of InferenceManager.inference, wrappers and operators run on a symbolic base with a budgeted batch followed by a budget-free call; every row must be flagged-with-False or equal the definition's answer, no exception may escape; also under parallel evaluation with hanging workers. Found and fixed: model read after 'unknown'.",
+   ref="3 C14", tech="symbolic execution over fault schedules (clock jumps, solver give-up, hung workers as free decisions) of the real budget/timeout code; per-row unsat VC; fault-injection replay on the real stack"),
 }
 NA = {
  "C10": "ANTLR-generated parser interpreted by the antlr4 runtime: symbolic inputs are concretised at the first DFA lookup, CrossHair gave an unsound 'Confirmed' (DFA-cache nondeterminism) and no verdict in 8 min for |s|<=3; an SMT model of ALL(*) would be a model of the runtime, not the real code (DESIGN.md 3 C10)",
